@@ -35,6 +35,7 @@ type Engine struct {
 	onlySafe        bool // thin mode: only clauses labelled safe_* are checked and assumed
 	inlineExternal  map[string]bool
 	effectsMemo     map[*ssa.Function]*effects
+	funcIndex       map[string]*ssa.Function
 	mu              sync.Mutex
 	loadSeconds     float64
 	contractFiles   []string
@@ -168,15 +169,44 @@ func (e *Engine) globalID(g *ssa.Global) int {
 // lookupFunc finds a function or method by its contract key
 // ("pkgpath.Name", "pkgpath.(*T).M").
 func (e *Engine) lookupFunc(key string) *ssa.Function {
-	for fn := range ssautil.AllFunctions(e.prog) {
-		if fn.Origin() != nil && fn.Origin() != fn {
-			continue
+	if e.funcIndex == nil {
+		e.funcIndex = map[string]*ssa.Function{}
+		add := func(fn *ssa.Function) {
+			if fn == nil || fn.Synthetic != "" {
+				return
+			}
+			if fn.Origin() != nil && fn.Origin() != fn {
+				return
+			}
+			k := funcKey(fn)
+			if _, dup := e.funcIndex[k]; !dup {
+				e.funcIndex[k] = fn
+			}
 		}
-		if funcKey(fn) == key && fn.Synthetic == "" {
-			return fn
+		for fn := range ssautil.AllFunctions(e.prog) {
+			add(fn)
+		}
+		// methods of generic types are not enumerated by AllFunctions
+		for _, p := range e.prog.AllPackages() {
+			if !strings.HasPrefix(p.Pkg.Path(), modulePrefix) {
+				continue
+			}
+			for _, m := range p.Members {
+				t, ok := m.(*ssa.Type)
+				if !ok {
+					continue
+				}
+				n, ok := t.Type().(*types.Named)
+				if !ok {
+					continue
+				}
+				for i := 0; i < n.NumMethods(); i++ {
+					add(e.prog.FuncValue(n.Method(i)))
+				}
+			}
 		}
 	}
-	return nil
+	return e.funcIndex[key]
 }
 
 // ---------------------------------------------------------------------------
